@@ -165,7 +165,7 @@ func checkExport(c *hx.Ctx, kase caseID, what string, cfg rag.ExportConfig, chun
 		implRows, implText := "err", "err"
 		if okExport {
 			implText = "ok " + hx.HexS(out)
-			if recs, perr := readRFC4180([]byte(out), expectedDelim(cfg)); perr == nil {
+			if recs, perr := readRFC4180D([]byte(out), expectedDelim(cfg)); perr == nil {
 				implRows = wireRows(recs)
 			}
 			// determinism (map iteration must not leak into the output)
@@ -180,7 +180,7 @@ func checkExport(c *hx.Ctx, kase caseID, what string, cfg rag.ExportConfig, chun
 				out2, err2 := rag.NewExporterWithConfig(cfg2).ExportToString(chunks)
 				if chk(c, "C14/"+kind+"-export-error", err2 == nil, kase, func() string { return fmt.Sprint(err2) }) {
 					full, ok := checkCSVWithHeader(c, kind, kase, out2, chunks, cfg2)
-					recs, perr := readRFC4180([]byte(out), expectedDelim(cfg))
+					recs, perr := readRFC4180D([]byte(out), expectedDelim(cfg))
 					if chk(c, "C14/"+kind+"-wellformed", perr == nil, kase, func() string { return fmt.Sprintf("%s: %v in %q", what, perr, clip(out)) }) && ok {
 						chk(c, "C14/"+kind+"-headerless-rows", fmt.Sprint(recs) == fmt.Sprint(full[1:]) && len(recs) == len(chunks), kase, func() string {
 							return fmt.Sprintf("%s: headerless export has %d records and differs from the rows of the export with header", what, len(recs))
@@ -1125,6 +1125,7 @@ func RunCase(c *hx.Ctx, idx int) {
 	checkHelpers(c, r, chunks)
 	checkAPI(c, kase, r, chunks)
 	checkJSONText(c, kase, r.Fork(0xA4), chunks, caseTexts, caseLines)
+	checkDeep2(c, kase, r.Fork(0xA6), chunks)
 
 	adversarial := false
 	for _, ch := range chunks {
@@ -1140,8 +1141,9 @@ func RunCase(c *hx.Ctx, idx int) {
 }
 
 func Run(c *hx.Ctx) {
-	c.Rep.Rule = "collections of 0–20 chunks whose ids, texts, titles, section names/paths, parent/child ids are concatenations of adversarial fragments (comma, tab, quotes, CR, LF, CRLF, NUL, control bytes, emoji, CJK, NBSP/NEL, JSON look-alikes, backslash-dot), valid UTF-8; every collection is exported by ToJSON/ToJSONL/ToCSV/ToTSV, by Exporter.ExportToString under 2 drawn configurations per format (library constructors + toggles of IncludeMetadata, MetadataFields nil/empty/subsets/unknown names, IncludeText, IncludeEmbeddings, FlattenMetadata, IncludeHeader, PrettyPrint, column names, delimiter), by BatchExporter (size 1..n+2, and a second run with a size from the whole positive int range: just above n, around powers of two, the 32-bit limits, MaxInt/k and MaxInt-k, uniform and log-uniform draws), StreamExporter, Pinecone/Chroma/Weaviate with dyadic embeddings, and filtered by 4 drawn filters/chains + an arbitrary predicate; plus, per case, a second collection whose texts are words spelled with arbitrary members of each letter's Unicode case class (components of SimpleFold/ToLower/ToUpper/ToTitle: k/K/KELVIN SIGN, i/I/U+0130/U+0131, s/S/long s, a-ring/ANGSTROM, Greek, digraphs) searched with 4 keywords that are pieces of those texts re-spelled in another casing, incl. wholly on the ASCII / non-ASCII side of each class, alone and chained with another filter; per case also: BatchExporter runs under a drawn, sometimes unsupported configuration (unknown Format value, delimiter encoding/csv rejects) with a callback failing at a drawn invocation; a StreamExporter driven by 0-8 drawn WriteChunk/Close calls (repeated chunks, arbitrary index arguments, Close anywhere); Pinecone/Chroma/Weaviate/PrepareForVectorDB with nil/empty/short/long embedding lists (nil and empty vectors inside); the text of every JSON/JSONL export, stream and vector-database export compared byte for byte with the model; the model's JSON reader against encoding/json on those texts, on copies damaged by 1-3 byte edits from a JSON-significant alphabet and on hand-made texts (number grammar, literals, escapes, duplicate keys, trailing data); JSON string literals of arbitrary byte strings (ill-formed UTF-8, overlongs, surrogates, U+2028/9, controls, <>&); formatValue on nested maps; non-trivial = at least one chunk; distinct by canonical collection"
+	c.Rep.Rule = "collections of 0–20 chunks whose ids, texts, titles, section names/paths, parent/child ids are concatenations of adversarial fragments (comma, tab, quotes, CR, LF, CRLF, NUL, control bytes, emoji, CJK, NBSP/NEL, JSON look-alikes, backslash-dot), valid UTF-8; every collection is exported by ToJSON/ToJSONL/ToCSV/ToTSV, by Exporter.ExportToString under 2 drawn configurations per format (library constructors + toggles of IncludeMetadata, MetadataFields nil/empty/subsets/unknown names, IncludeText, IncludeEmbeddings, FlattenMetadata, IncludeHeader, PrettyPrint, column names, delimiter), by BatchExporter (size 1..n+2, and a second run with a size from the whole positive int range: just above n, around powers of two, the 32-bit limits, MaxInt/k and MaxInt-k, uniform and log-uniform draws), StreamExporter, Pinecone/Chroma/Weaviate with dyadic embeddings, and filtered by 4 drawn filters/chains + an arbitrary predicate; plus, per case, a second collection whose texts are words spelled with arbitrary members of each letter's Unicode case class (components of SimpleFold/ToLower/ToUpper/ToTitle: k/K/KELVIN SIGN, i/I/U+0130/U+0131, s/S/long s, a-ring/ANGSTROM, Greek, digraphs) searched with 4 keywords that are pieces of those texts re-spelled in another casing, incl. wholly on the ASCII / non-ASCII side of each class, alone and chained with another filter; per case also: BatchExporter runs under a drawn, sometimes unsupported configuration (unknown Format value, delimiter encoding/csv rejects) with a callback failing at a drawn invocation; a StreamExporter driven by 0-8 drawn WriteChunk/Close calls (repeated chunks, arbitrary index arguments, Close anywhere); Pinecone/Chroma/Weaviate/PrepareForVectorDB with nil/empty/short/long embedding lists (nil and empty vectors inside); the text of every JSON/JSONL export, stream and vector-database export compared byte for byte with the model; the model's JSON reader against encoding/json on those texts, on copies damaged by 1-3 byte edits from a JSON-significant alphabet and on hand-made texts (number grammar, literals, escapes, duplicate keys, trailing data); JSON string literals of arbitrary byte strings (ill-formed UTF-8, overlongs, surrogates, U+2028/9, controls, <>&); formatValue on nested maps; second deepening, per case: the inverse reader (export text -> chunks: standard parser + decoder of the omitempty / %d / %t / level-name / [a,b,c] conventions) on an export of every format under a drawn configuration (1 in 3 a full one), on a copy damaged by 1-3 byte edits and on hand-made records and tables (wrong JSON types, non-integer numbers, unknown level names, duplicate members/columns, short rows, malformed list cells), with the statement-level oracle decode(export(chunks)) = the chunks up to the configuration's own projection; a CSV export under a delimiter rune drawn from valid 1-4 byte runes (incl. space, letters, U+0080, U+FFFE, U+10FFFF), invalid ones (U+FFFD, surrogates, > U+10FFFF, negative, quote, CR, LF) and uniform draws, on the collection extended by chunks whose strings are pieces of the delimiter's own encoding (ill-formed UTF-8), plus csv.Writer / the RFC 4180 reader on records of such pieces and on damaged texts; BatchExporter under batch sizes 0, negative, MinInt, MaxInt; ExportToFile / ChunkCollection.ExportToFile into a temp directory (uncreatable = a directory of that name; pre-existing content) and ExportToFiles under 6 name patterns (one with a bad argument index, so that all names collide), a directory in the way of one batch, a pre-existing file; toggles of the configuration fields an export must not look at; non-trivial = at least one chunk; distinct by canonical collection"
 	checkConfigs(c)
+	checkFormatNames(c)
 	n := c.N(1200, 12000)
 	for i := 0; i < n; i++ {
 		RunCase(c, i)
